@@ -219,7 +219,35 @@ func encodeAll(c *core.Case, family string, x any, w map[string]any) {
 	call(c, family+"|MarshalIndent", w, func() { json.MarshalIndent(x, ">", "\t") })
 }
 
+// maps whose values are of a non-empty interface type: their (itab, data) words are not the
+// (type, data) words of an empty interface
+type stringerT struct{ s string }
+
+func (s stringerT) String() string { return s.s }
+
+var ifaceMaps = []func() any{
+	func() any { return map[string]fmt.Stringer{"a": stringerT{"x"}, "b": time.Second, "c": nil} },
+	func() any {
+		return map[string]error{"e": io.EOF, "n": nil, "f": fmt.Errorf("wrapped: %w", io.ErrUnexpectedEOF)}
+	},
+	func() any { return map[string]json.Marshaler{"r": json.RawMessage(`{"a":1}`), "n": nil} },
+	func() any { return map[string]io.Reader{"r": strings.NewReader("abc"), "n": nil} },
+	func() any { return []map[string]fmt.Stringer{{"a": stringerT{"y"}}} },
+	func() any { return struct{ M map[string]error }{map[string]error{"e": io.EOF}} },
+}
+
 func runEncodeValues(c *core.Case) {
+	{
+		x := ifaceMaps[c.Index%len(ifaceMaps)]()
+		w := map[string]any{"type": fmt.Sprintf("%T", x)}
+		encodeAll(c, "encode-values|map-of-non-empty-interface", x, w)
+		// and as decode target: an error or a value, never a forged interface
+		tv := reflect.New(reflect.TypeOf(x))
+		call(c, "encode-values|map-of-non-empty-interface|Unmarshal", w, func() {
+			json.Unmarshal([]byte(core.Pick(c.Rng, []string{`{"a":1,"b":"x","c":null}`, `{"e":{}}`, `[{"a":"s"}]`, `{"M":{"e":null,"f":1}}`, `null`})), tv.Interface())
+		})
+		call(c, "encode-values|map-of-non-empty-interface|Marshal-of-decoded", w, func() { json.Marshal(tv.Interface()) })
+	}
 	t := pickType(c)
 	f := &jtypes.Filler{R: c.Rng.Fork(2), NoNaN: c.Index%3 != 0, RawValid: c.Index%2 == 0, MaxLen: 6}
 	v := f.NewValue(t)
@@ -559,7 +587,7 @@ func runCyclicTargets(c *core.Case) {
 func init() {
 	core.Register(&core.Monitor{
 		Prop:    "C06",
-		Rule:    "decode-fuzz: arbitrary bytes, token soups, truncated and mutated documents into guarded targets (struct{Pre [4]uint64; V T; Post [4]uint64} with canary words) of generated and library types, zero or pre-filled, through Unmarshal, Parse with a random 9-bit flag word, Decoder.Decode (chunked reader ending in an error; UseNumber/DisallowUnknownFields/ZeroCopy), Valid, Tokenizer and invalid targets; whatever Unmarshal left in the target is encoded again (every pointer in it is followed). encode-values: generated values incl. pointer-shaped corners by value, by pointer, as map value, in a one-element array and inside interfaces through Marshal/Append/Encoder/MarshalIndent. cycles: 20 cyclic shapes through pointers, slices, maps, empty and non-empty interfaces, recursive named slice/map/array types must return an error. cyclic-targets: decoding into interfaces that hold pointers to each other (cycles of 1-3, through a field, slice elements, map values). deep-encode / deep-decode: nesting of 10 .. 10^6 levels (3*10^6 for documents) in 5 shapes each. A recovered panic, a canary change, a process death attributed by the journal (SIGSEGV, stack overflow, checkptr, ASan report, out of memory) or a CPU-time budget overrun confirmed in a fresh process is a violation; no functional comparison. Distinct by (type, document) / shape.",
+		Rule:    "decode-fuzz: arbitrary bytes, token soups, truncated and mutated documents into guarded targets (struct{Pre [4]uint64; V T; Post [4]uint64} with canary words) of generated and library types, zero or pre-filled, through Unmarshal, Parse with a random 9-bit flag word, Decoder.Decode (chunked reader ending in an error; UseNumber/DisallowUnknownFields/ZeroCopy), Valid, Tokenizer and invalid targets; whatever Unmarshal left in the target is encoded again (every pointer in it is followed). encode-values: maps with values of a non-empty interface type (Stringer, error, Marshaler, io.Reader; also as decode targets), generated values incl. pointer-shaped corners by value, by pointer, as map value, in a one-element array and inside interfaces through Marshal/Append/Encoder/MarshalIndent. cycles: 20 cyclic shapes through pointers, slices, maps, empty and non-empty interfaces, recursive named slice/map/array types must return an error. cyclic-targets: decoding into interfaces that hold pointers to each other (cycles of 1-3, through a field, slice elements, map values). deep-encode / deep-decode: nesting of 10 .. 10^6 levels (3*10^6 for documents) in 5 shapes each. A recovered panic, a canary change, a process death attributed by the journal (SIGSEGV, stack overflow, checkptr, ASan report, out of memory) or a CPU-time budget overrun confirmed in a fresh process is a violation; no functional comparison. Distinct by (type, document) / shape.",
 		Trusted: []string{"the supervisor's crash attribution (journal + stderr signature)", "Go race detector's checkptr and AddressSanitizer for the unsafe paths", "process CPU-time clock for bounded progress"},
 		Subs: []core.Sub{
 			{Name: "decode-fuzz", N: core.Const(24000, 1000000), Run: runDecodeFuzz},
